@@ -98,6 +98,7 @@ fn parent(args: &Args) {
     run::classify_ends(&ends, &mut out, true);
     let sz = sizes(args.tier);
     let mut extra = Map::new();
+    vlib::sanlayer::run_layers(ID, args, &mut out, &mut extra);
     {
         let mut dspec = ChildSpec::new("all", args.get_u64("dbg_shards", 32)).timeout(3000).arg("part", args.get("part").unwrap_or("all"));
         if let Some(v) = args.get("only") {
@@ -156,6 +157,22 @@ fn child(args: &Args) {
         }
     }));
     let mut out = Out::new();
+    downcast_probes(&mut out);
+    if args.get("part") == Some("mini") {
+        // small slice for the interpreter layer: the probes above + a few short histories
+        let sz = sizes(args.tier);
+        let n = args.get_u64("n", 3);
+        for k in 0..n {
+            let idx = args.shard * 1000 + k;
+            let mut rng = Rng::derive(args.seed ^ 0x3171, idx, 7);
+            let cfg = decode_cfg(rng.below(NCONFIGS), rng.below(8) as u8);
+            let p = HistParams { nops: 6, bomb_pct: if k % 2 == 0 { 30 } else { 0 }, max_depth: 2 };
+            scenario(args.seed, "fmt", 0x3171, idx, &cfg, 1 + (k % 2) as usize, &p, &mut out);
+        }
+        let _ = sz;
+        out.emit();
+        return;
+    }
     let part = args.get("part").unwrap_or("all").to_string();
     let only = args.get("only").and_then(|s| s.parse::<u64>().ok());
     let sz = sizes(args.tier);
@@ -230,6 +247,69 @@ fn scenario(seed: u64, part: &str, salt: u64, hidx: u64, cfg: &Cfg, nthreads: us
     }
     for h in &hists {
         judge_thread(&ctx, h, &recs, out);
+    }
+}
+
+/// `fmt::Subscriber` / `fmt::Collector` answer `downcast_raw` with pointers to their own parts
+/// (event formatter, field formatter, writer factory).  Each answer is used as the type asked
+/// for: a pointer to anything else is undefined behaviour for the tools and, natively, a wrong
+/// sink identity / a wrong rendering.
+fn downcast_probes(out: &mut Out) {
+    use tracing_subscriber::fmt::format::{DefaultFields, Format, Full};
+    let sink = RecSink::new(7);
+    // the collector built by `fmt()`
+    let d = Dispatch::new(tracing_subscriber::fmt().with_ansi(false).without_time().with_writer(sink.clone()).finish());
+    out.count("fmt_downcast_probes", 1);
+    let mut problems: Vec<String> = vec![];
+    match d.downcast_ref::<RecSink>() {
+        Some(w) => {
+            if !Arc::ptr_eq(&w.0, &sink.0) {
+                problems.push("downcast_ref::<W>() of fmt's collector does not give the writer factory it was built with".into());
+            }
+        }
+        None => problems.push("downcast_ref::<W>() of fmt's collector answers None".into()),
+    }
+    if d.downcast_ref::<DefaultFields>().is_none() {
+        problems.push("downcast_ref::<DefaultFields>() of fmt's collector answers None".into());
+    }
+    match d.downcast_ref::<Format<Full, ()>>() {
+        Some(f) => {
+            // use it: its Debug rendering walks every field of the value
+            let t = format!("{f:?}");
+            if !t.contains("Format") {
+                problems.push(format!("downcast_ref::<Format<Full, ()>>() renders as {t:?}"));
+            }
+        }
+        None => problems.push("downcast_ref::<Format<Full, ()>>() of fmt's collector answers None".into()),
+    }
+    if d.downcast_ref::<Registry>().is_none() {
+        problems.push("downcast_ref::<Registry>() of fmt's collector answers None".into());
+    }
+    // the subscriber inside a registry stack
+    let sink2 = RecSink::new(8);
+    let d2 = Dispatch::new(tracing_subscriber::registry().with(tracing_subscriber::fmt::subscriber().with_ansi(false).with_writer(sink2.clone())));
+    match d2.downcast_ref::<RecSink>() {
+        Some(w) => {
+            if !Arc::ptr_eq(&w.0, &sink2.0) {
+                problems.push("downcast_ref::<W>() through a registry stack does not give the writer factory of the fmt subscriber".into());
+            }
+        }
+        None => problems.push("downcast_ref::<W>() through a registry stack answers None".into()),
+    }
+    if d2.downcast_ref::<DefaultFields>().is_none() {
+        problems.push("downcast_ref::<DefaultFields>() through a registry stack answers None".into());
+    }
+    // and the answers stay usable while events are formatted
+    {
+        let _g = tracing::dispatch::set_default(&d);
+        tracing::info!(probe = 1, "downcast probe");
+    }
+    let wrote = sink.take().iter().filter(|r| matches!(r.kind, RecKind::Write(_))).count();
+    if wrote != 1 {
+        problems.push(format!("the probed collector wrote {wrote} records for one event"));
+    }
+    if let Some(p) = problems.first() {
+        out.violation(format!("fmt downcast: {p}"), json!({"part": "downcast", "problems": problems}));
     }
 }
 
